@@ -305,6 +305,9 @@ class Exec:
             if ty in ("connection", "cursor"):
                 st.locals[p] = Opaque(ty, rows=None)
                 continue
+            if ty == "tz":
+                st.locals[p] = Opaque("tz", id=z3.Int(uid("zone")))
+                continue
             if isinstance(ty, str) and ty.startswith("obj["):
                 target = ty[4:-1]
                 st.locals[p] = c.make_self(self, st, facts, c.registry.class_fields(target), target, p)
@@ -1276,6 +1279,8 @@ class Exec:
     def is_same(self, a, b):
         if isinstance(a, MaybeNone) and b is None:
             return znot(a.present)
+        if isinstance(a, Opaque) and b is None or a is None and isinstance(b, Opaque):
+            return False
         if a is None or b is None:
             return a is None and b is None
         if isinstance(a, (str, bool, int)) and isinstance(b, (str, bool, int)):
